@@ -109,5 +109,10 @@ Proof.
   intros H. induction l as [|a l IH]; [reflexivity|]. cbn [flat_map]. apply nd_app'; auto.
 Qed.
 
+(* equality of two uintN accumulations that differ in where the intermediate `mod 2^N` are taken *)
+Ltac zmod_eq :=
+  repeat first [ rewrite Zplus_mod_idemp_l | rewrite Zplus_mod_idemp_r ];
+  first [ reflexivity | f_equal; ring ].
+
 Ltac wsimpl ::=
   cbn [wbind wrun wcall wret wexit wpanic wemit wemits w_write wneed wlisten batch_err merror_is_nil negb fst snd app].
